@@ -60,12 +60,12 @@ func main() {
 		}
 		os.Exit(1)
 	}
-	known := loadKnown(*verif)
+	known, pending := loadKnown(*verif)
 	rc := 0
 	for _, id := range ids {
 		t1 := time.Now()
 		pd := props[id]
-		c := &Ctx{P: p, Prop: id, Tier: *tier, floors: map[string]int{}, Stats: map[string]any{}, known: known, ruleDocs: map[string]string{}}
+		c := &Ctx{P: p, Prop: id, Tier: *tier, floors: map[string]int{}, Stats: map[string]any{}, known: known, pending: pending, ruleDocs: map[string]string{}}
 		for _, r := range pd.Rules {
 			if *only != "" && r.ID != *only {
 				continue
